@@ -207,6 +207,8 @@ class NcpEzsp:
             self.callback(beh[1], beh[2], fmt=fmt)
         elif kind == "otherseq":       # reply under a different sequence number
             self._send(fmt, (seq + beh[1]) & 0xFF, name, self._result(name, args))
+        elif kind == "invalid":        # the NCP does not know the command: invalidCommand under the request's sequence number
+            self._send(fmt, seq, "invalidCommand", [self.t.EzspStatus.ERROR_INVALID_FRAME_ID])
         elif kind == "raw":            # ("raw", bytes)
             self.loop.call_soon(self.deliver, bytes(beh[1]))
         else:
